@@ -24,7 +24,15 @@ RULE = ("part 'faults': ProgGen programs (no failing serializers) run single-thr
         "satisfies the invariants. The healthy destination's tape (plus serialize_task_id reservation events) must satisfy: "
         "well-formed metadata, run-wide unique (task_uuid, task_level), positions exactly 1..n per action with start at 1 "
         "and end at n, first uses in increasing order, end message last. non-trivial = >=1 destination-failure report "
-        "inserted into a tree of depth >=2, or >=2 concurrently active contexts; distinct by hash of (program shape, masks). part 'ordered': deterministic single-thread scenarios in which eliot emits a message while handling another (a failure report during the replay of a start-up buffer held inside an open action; a healthy field serializer that logs): the accepting destination must still see level order (recorded findings)")
+        "inserted into a tree of depth >=2, or >=2 concurrently active contexts; distinct by hash of (program shape, masks). part 'ordered': deterministic single-thread scenarios in which eliot emits a message while handling another (a failure report during the replay of a start-up buffer held inside an open action; a healthy field serializer that logs): the accepting destination must still see level order (recorded findings); "
+        "part 'chain': destinations that answer a message by logging the next one from inside their own call, chained 1..8 messages deep (error -> alert -> page -> ticket -> "
+        "invoice -> ..., and a destination answering retry(n) with retry(n-1) down to 0), set off by a message, by an action's start message or by its end message, inside 1-3 open "
+        "actions or in no action, logging directly or inside an action of their own, with or without a failing destination in between: the accepting destination registered before "
+        "them must satisfy all placement rules, the one registered after them all but emission order, and every logging call that returned inside an open action is on both tapes "
+        "(no position consumed and never emitted); "
+        "part 'late': add_success_fields / addSuccessFields called after the action (succeeded or failed, action or task, with block or finish()) has finished - one indent too "
+        "few, finish() then a late call, a callback firing in the parent, inside a sibling, after the parent ended or at the very end - below 0-3 open ancestors that go on logging: "
+        "placement rules hold, every end message stays at its action's last position and nothing is emitted below a finished action (whether the late fields are dropped is not judged)")
 ASSUMPTIONS = ["programs are well-formed: no logging into finished actions, each serialized id continued once",
                "emission order is compared with position order on first use (allocation), since a remote child's messages "
                "are legitimately emitted after the reservation"]
@@ -40,6 +48,8 @@ def plan(tier, seed):
     specs += [{"part": "extractors", "seed": seed, "i": i} for i in range(m)]
     q = 600 if tier == "quick" else 6000
     specs += [{"part": part, "seed": seed, "lo": i, "hi": min(q, i + 100)} for part in ("foreign", "badid") for i in range(0, q, 100)]
+    w = 960 if tier == "quick" else 9600
+    specs += [{"part": part, "seed": seed, "lo": i, "hi": min(w, i + 96)} for part in ("chain", "late") for i in range(0, w, 96)]
     specs += [{"part": "ordered", "seed": seed, "i": i} for i in range(8 if tier == "quick" else 40)]  # (one fresh process each: start-up buffer)
     return specs
 
@@ -442,6 +452,314 @@ def one_badid(seed, i, res):
             "tape": [{k: m.get(k) for k in ("task_uuid", "task_level", "message_type", "action_type", "action_status")} for m in got][:40]}})
 
 
+CHAIN_KINDS = ["app:error", "ops:alert", "ops:page", "ops:ticket", "ops:invoice", "ops:audit", "ops:archive", "ops:report"]
+
+
+def _brief(got, n=60):
+    return [{k: m.get(k) for k in ("task_uuid", "task_level", "message_type", "action_type", "action_status", "hop", "n") if k in m} for m in got][:n]
+
+
+def _sorted_entries(got):
+    """The same messages in (task, level) order: judges everything in check_placement except emission order."""
+    first = {}
+    for k, m in enumerate(got):
+        first.setdefault(m.get("task_uuid"), k)
+    try:
+        return [("msg", m) for m in sorted(got, key=lambda m: (first[m.get("task_uuid")], list(m["task_level"])))]
+    except Exception:
+        return [("msg", m) for m in got]
+
+
+def one_chain(seed, i, res):
+    """Destinations that react to a message by logging another one, chained: a pipeline error -> alert -> page -> ticket -> invoice
+    -> ... in which stage k is a destination that logs message type k+1 from inside its own call when it is offered type k, and a
+    'retry(n) -> retry(n-1) -> ... -> retry(0)' destination that answers itself. 1..8 chain messages, started by a message, by the start
+    message or by the end message of an action, inside 1-3 open actions or in no action; stages log directly or inside an action of
+    their own. Two destinations accept every message: one registered before the stages (it is offered a message before the stage's
+    answer to it exists: full placement rules incl. emission order) and one registered after them (everything but emission order).
+    Every logging call that returned while an action was open used a position of that action, so it must be on both tapes."""
+    from collections import Counter
+    from eliot import current_action
+    rng = random.Random("%s:C02:chain:%d" % (seed, i))
+    mode = ["pipeline", "retry"][i % 2]
+    length = 1 + (i // 2) % 8  # number of messages of one chain, the triggering one included
+    where = ["action", "none", "nested"][(i // 16) % 3]
+    trigger = rng.choice(["message", "message", "start", "succeeded", "failed"]) if mode == "pipeline" else "message"
+    wrap = rng.random() < 0.35  # stages wrap their reaction in an action of their own
+    via = rng.choice(["log_message", "log_message", "action.log"])
+    ntriggers = rng.choice([1, 1, 2])
+    with_bad = rng.random() < 0.25
+    bad_every = rng.randint(2, 5)
+    first, last = [], []
+    logged = []  # (message_type, cid, hop, an action was open) for every logging call that returned
+    problems = []
+
+    def emit(mt, **fields):
+        act = current_action()
+        if act is not None and via == "action.log":
+            act.log(message_type=mt, **fields)
+        else:
+            log_message(message_type=mt, **fields)
+        logged.append((mt, fields.get("cid"), fields.get("hop"), act is not None))
+
+    def react(mt, **fields):
+        if wrap:
+            with start_action(action_type="ops:handle", emits=mt):
+                emit(mt, **fields)
+        else:
+            emit(mt, **fields)
+
+    def make_stage(k):
+        def stage(m):
+            if k == 0 and trigger != "message":
+                hit = m.get("action_type") == "app:request" and m.get("action_status") == trigger
+            else:
+                hit = m.get("message_type") == CHAIN_KINDS[k]
+            if hit:
+                react(CHAIN_KINDS[k + 1], cid=m.get("cid", -1), hop=k + 1)
+        return stage
+
+    def countdown(m):
+        if m.get("message_type") == "retry" and m["n"] > 0:
+            react("retry", cid=m["cid"], n=m["n"] - 1, hop=m["hop"] + 1)
+
+    calls = [0]
+
+    def bad(m):
+        calls[0] += 1
+        if calls[0] % bad_every == 0:
+            raise excs.DestFault("chain part, call %d" % calls[0])
+
+    middle = [countdown] if mode == "retry" else [make_stage(k) for k in range(length - 1)]
+    if with_bad:
+        middle.append(bad)
+    rng.shuffle(middle)
+    dests = [first.append] + middle + [last.append]
+
+    def start_chain(cid):
+        if mode == "retry":
+            emit("retry", cid=cid, n=length - 1, hop=0)
+        elif trigger == "message":
+            emit(CHAIN_KINDS[0], cid=cid, hop=0, code=500)
+        else:
+            try:
+                with start_action(action_type="app:request", cid=cid) as a:
+                    emit("app:step", cid=cid)
+                    if trigger == "succeeded":
+                        a.add_success_fields(cid=cid)
+                    if trigger == "failed":
+                        raise KeyError("request %d failed" % cid)
+            except KeyError:
+                pass
+
+    def body():
+        for j in range(rng.randint(0, 2)):
+            emit("app:before", k=j)
+        for cid in range(ntriggers):
+            start_chain(cid)
+            if rng.random() < 0.5:
+                emit("app:between", k=cid)
+        if rng.random() < 0.4:
+            with start_action(action_type="app:cleanup"):
+                emit("app:cleanup-step")
+        emit("app:after")
+
+    add_destinations(*dests)
+    try:
+        if where == "none":
+            body()
+        elif where == "action":
+            with start_action(action_type="app:job"):
+                body()
+        else:
+            from eliot import start_task
+            with start_task(action_type="app:outer"):
+                emit("app:outer-first")
+                with start_action(action_type="app:middle"):
+                    with start_action(action_type="app:job"):
+                        body()
+                    emit("app:middle-last")
+    except BaseException as e:
+        problems.append("the program raised %r" % (e,))
+    finally:
+        for d in dests:
+            try:
+                remove_destination(d)
+            except ValueError:
+                pass
+    problems += oracles.check_placement([("msg", m) for m in first])
+    problems += ["(destination registered after the reacting ones) " + p for p in oracles.check_placement(_sorted_entries(last))]
+    # every logging call that returned inside an open action took one of its positions: the message is on the tape of a destination
+    # that accepted everything (a context-less message that vanished leaves no hole: not judged here)
+    in_action = Counter((mt, cid, hop) for (mt, cid, hop, inside) in logged if inside)
+    for name, tape_ in (("before", first), ("after", last)):
+        seen = Counter((m.get("message_type"), m.get("cid"), m.get("hop")) for m in tape_ if "message_type" in m)
+        for key, cnt in sorted(in_action.items(), key=repr):
+            if seen.get(key, 0) < cnt:
+                problems.append("%d logging call(s) for message_type %r (chain %r, hop %r) returned inside an open action, i.e. took a position of it, but the accepting "
+                                "destination registered %s the reacting ones received %d such message(s): a position was consumed and never emitted" % (
+                                    cnt, key[0], key[1], key[2], name, seen.get(key, 0)))
+    hops_done = max([hop for (mt, cid, hop, inside) in logged if hop is not None] + [0])
+    c = res["counters"]
+    c["messages_checked"] = c.get("messages_checked", 0) + len(first) + len(last)
+    c["chain_runs"] = c.get("chain_runs", 0) + 1
+    c["chain_messages_logged_by_destinations"] = c.get("chain_messages_logged_by_destinations", 0) + sum(1 for x in logged if x[2])
+    d = c.setdefault("chain_deepest_hop_reached", {})
+    d[str(hops_done)] = d.get(str(hops_done), 0) + 1
+    if hops_done >= 4 and where != "none":
+        c["chains_5_or_more_deep_inside_actions"] = c.get("chains_5_or_more_deep_inside_actions", 0) + 1
+    res["evals"] += 1
+    res["nontrivial"].append(h(["chain", mode, length, where, trigger, wrap, via, ntriggers, with_bad]))
+    if res.get("sample") is None and length == 5 and where == "action" and not wrap and not with_bad and ntriggers == 1:
+        res["sample"] = {"part": "chain", "mode": mode, "length": length, "trigger": trigger, "tape": _brief(first, 20)}
+    if problems:
+        res["violations"].append({"msg": problems[0], "mech": None, "detail": {
+            "part": "chain", "case": i, "mode": mode, "chain_length": length, "started_in": where, "trigger": trigger, "stages_wrap_in_action": wrap,
+            "via": via, "triggers": ntriggers, "failing_destination": with_bad, "problems": problems[:8], "tape": _brief(first)}})
+
+
+def one_late(seed, i, res):
+    """add_success_fields / addSuccessFields called AFTER the action has finished: one indent too few after the with block, finish()
+    followed by a late call, a callback registered inside the action that fires late (while the parent is still open, inside a sibling
+    action, after the parent has finished too, at the very end), for succeeded and failed actions and tasks, below 0-3 open ancestors
+    that go on logging. Whether the late fields are dropped is not judged; the tape must satisfy the placement rules, and nothing may be
+    emitted below an action after its end message."""
+    from eliot import start_task
+    rng = random.Random("%s:C02:late:%d" % (seed, i))
+    depth = i % 4
+    got = []
+    problems = []
+    victims = []  # (style, (uuid, prefix), index of the tape at which the action had finished)
+    stats = {"late": 0, "raised": 0, "open_ancestors": 0}
+    pending = {}  # level -> callbacks to fire once the ancestor of that level has finished
+    at_end = []
+
+    def late(a, open_ancestors):
+        api = rng.choice(["add_success_fields", "addSuccessFields"])
+
+        def call():
+            stats["late"] += 1
+            if open_ancestors():
+                stats["open_ancestors"] += 1
+            try:
+                getattr(a, api)(**{rng.choice(["status", "elapsed", "attempts"]): rng.randint(0, 500)})
+            except Exception:
+                stats["raised"] += 1  # (not C02's business)
+        return call
+
+    def filler(tag):
+        for j in range(rng.randint(0, 2)):
+            log_message(message_type="lt:" + tag, k=j)
+
+    def victim(j, nopen):
+        """One action created, run and finished below `nopen` open ancestors; then add_success_fields on it."""
+        style = rng.choice(["with_dedent", "with_dedent", "finish_then_late", "callback", "failed_with", "finish_exc", "task_with", "callback"])
+        opened = [nopen]
+        call_holder = []
+        k0 = len(got)
+        starter = start_task if style == "task_with" else start_action
+        if style in ("with_dedent", "task_with", "callback", "failed_with"):
+            try:
+                with starter(action_type="lt:victim", style=style) as a:
+                    a.add_success_fields(early=1)
+                    filler("in-victim")
+                    if rng.random() < 0.4:
+                        with start_action(action_type="lt:victim-child"):
+                            filler("in-victim-child")
+                    call_holder.append(late(a, lambda: opened[0] > 0))
+                    if style == "failed_with":
+                        raise KeyError("victim fails")
+            except KeyError:
+                pass
+        else:
+            a = start_action(action_type="lt:victim", style=style)
+            with a.context():
+                filler("in-victim")
+            a.addSuccessFields(early=2)
+            if style == "finish_exc":
+                a.finish(KeyError("victim fails"))
+            else:
+                a.finish()
+            call_holder.append(late(a, lambda: opened[0] > 0))
+        victims.append((style, _from_start(got[k0]), len(got), j))
+        call = call_holder[0]
+        if style == "callback":
+            when = rng.choice(["now", "sibling", "after_parent", "at_end"])
+            if when == "now":
+                call()
+            elif when == "sibling":
+                with start_action(action_type="lt:sibling"):
+                    filler("in-sibling")
+                    call()
+                    filler("in-sibling")
+            elif when == "after_parent" and j > 0:
+                def fire(call=call):
+                    opened[0] = j - 1
+                    call()
+                pending.setdefault(j - 1, []).append(fire)
+            else:
+                def fire_end(call=call):
+                    opened[0] = 0
+                    call()
+                at_end.append(fire_end)
+        else:
+            for r in range(rng.randint(1, 3)):
+                call()
+                if rng.random() < 0.6:
+                    filler("between-late")
+            if rng.random() < 0.3:
+                with start_action(action_type="lt:sibling"):
+                    call()
+                    filler("in-sibling")
+
+    def level(j):
+        # j open ancestors around this code
+        filler("l%d-first" % j)
+        if j == depth or rng.random() < 0.5:
+            victim(j, j)
+        if j < depth:
+            starter = start_task if (j == 0 and rng.random() < 0.3) else start_action
+            with starter(action_type="lt:ancestor", depth=j):
+                level(j + 1)
+            for f in pending.pop(j, []):
+                f()
+                filler("l%d-after-callback" % j)
+        if rng.random() < 0.3:
+            victim(j, j)
+        filler("l%d-last" % j)
+
+    add_destinations(got.append)
+    try:
+        level(0)
+        for f in at_end:
+            f()
+            log_message(message_type="lt:at-end")
+    except BaseException as e:
+        problems.append("the program raised %r" % (e,))
+    finally:
+        remove_destination(got.append)
+    problems += oracles.check_placement([("msg", m) for m in got])
+    for style, (uuid, prefix), k_end, j in victims:
+        end = got[k_end - 1]
+        for m in got[k_end:]:
+            if m.get("task_uuid") == uuid and m.get("task_level")[:len(prefix)] == prefix:
+                problems.append("action %s%r (style %s, %d open ancestors) had finished - its end message is at task_level %r - when add_success_fields was called on it; "
+                                "afterwards %r was emitted at task_level %r, inside the finished action and after its end message" % (
+                                    uuid[:8], prefix, style, j, end.get("task_level"), m.get("message_type") or m.get("action_type"), m.get("task_level")))
+                break
+    c = res["counters"]
+    c["messages_checked"] = c.get("messages_checked", 0) + len(got)
+    c["late_success_fields_calls"] = c.get("late_success_fields_calls", 0) + stats["late"]
+    c["late_success_fields_calls_with_open_ancestor"] = c.get("late_success_fields_calls_with_open_ancestor", 0) + stats["open_ancestors"]
+    c["late_success_fields_calls_raised"] = c.get("late_success_fields_calls_raised", 0) + stats["raised"]
+    res["evals"] += 1
+    res["nontrivial"].append(h(["late", depth, [v[0] for v in victims], [v[3] for v in victims], len(got)]))
+    if problems:
+        res["violations"].append({"msg": problems[0], "mech": None, "detail": {
+            "part": "late", "case": i, "open_ancestors": depth, "victims": [(v[0], v[3]) for v in victims], "late_calls": stats["late"],
+            "problems": problems[:8], "tape": _brief(got)}})
+
+
 def part_ordered(spec, res):
     """Two deterministic single-thread scenarios in which a message is EMITTED by eliot itself in the middle of handling another one
     (recorded findings, see KNOWN_FINDINGS.json): what the healthy destination observes must still be in level order inside every action.
@@ -506,9 +824,10 @@ def run_case(spec):
     if spec["part"] == "ordered":
         part_ordered(spec, res)
         return res
-    if spec["part"] in ("foreign", "badid"):
+    if spec["part"] in ("foreign", "badid", "chain", "late"):
+        one = {"foreign": one_foreign, "badid": one_badid, "chain": one_chain, "late": one_late}[spec["part"]]
         for i in range(spec["lo"], spec["hi"]):
-            (one_foreign if spec["part"] == "foreign" else one_badid)(spec["seed"], i, res)
+            one(spec["seed"], i, res)
         return res
     if spec["part"] == "faults":
         for i in range(spec["lo"], spec["hi"]):
@@ -529,4 +848,8 @@ def finalize(agg, tier):
         return "no with-block was left in another context than it was entered in"
     if not c.get("malformed_task_ids_tried", 0):
         return "continue_task was never tried with a malformed identifier"
+    if not c.get("chains_5_or_more_deep_inside_actions", 0) or not c.get("chain_messages_logged_by_destinations", 0):
+        return "no chain of destinations that log while handling a message got five or more messages deep inside an action"
+    if not c.get("late_success_fields_calls_with_open_ancestor", 0):
+        return "add_success_fields was never called on a finished action while an ancestor was still open"
     return None
